@@ -636,6 +636,49 @@ def cross_call_forms(rep):
                              'gives %s, the octets denote %s' % (i, cdc, data.hex(), got, want),
                              {'kind': 'cross-call-forms', 'class': cls, 'number': num, 'call': i, 'bytes': data.hex()})
                     break
+            # the same within ONE decoder object: a stream of values read by one StreamingDecoder, and the elements of one
+            # SEQUENCE OF / members of one record read by one call - both forms of the identifier in either order
+            import io
+            for order in ([prim, cons, prim, cons_indef, cons, prim], [cons, prim, cons_indef, prim], [cons_indef, prim, cons]):
+                for cdc in ('ber', 'cer'):
+                    if cdc == 'cer' and cons in order:
+                        continue
+                    rep.count('one-decoder-forms')
+                    try:
+                        got = [bytes(v).decode() for v in codec.DEC[cdc].StreamingDecoder(io.BytesIO(b''.join(order)), asn1Spec=ostr)]
+                    except Exception as e:  # noqa
+                        got = 'ERR ' + type(e).__name__
+                    if got != ['abcd'] * len(order):
+                        rep.fail('history-dependent:identifier-forms-one-decoder', 'one %s StreamingDecoder over %s yields %s, every value denotes abcd' % (
+                            cdc, b''.join(order).hex(), got), {'kind': 'one-decoder-forms', 'class': cls, 'number': num, 'bytes': b''.join(order).hex()})
+                        break
+                body = b''.join(order[:3])
+                if len(body) < 128:
+                    rep.count('one-call-forms')
+                    try:
+                        v, rest = codec.DEC['ber'].decode(b'\x30' + bytes([len(body)]) + body, asn1Spec=univ.SequenceOf(componentType=ostr))
+                        got = [bytes(x).decode() for x in v] + (['+rest'] if rest else [])
+                    except Exception as e:  # noqa
+                        got = 'ERR ' + type(e).__name__
+                    if got != ['abcd'] * 3:
+                        rep.fail('history-dependent:identifier-forms-one-call', 'SEQUENCE OF with elements %s decodes to %s, every element denotes abcd' % (
+                            body.hex(), got), {'kind': 'one-call-forms', 'class': cls, 'number': num, 'bytes': body.hex()})
+            # an explicit wrapper (constructed) and an implicit primitive under the same class and number in one record
+            wrapped = univ.Integer().subtype(explicitTag=tag.Tag(CLS[cls], tag.tagFormatSimple, num))
+            for first_wrapped in (True, False):
+                r2 = univ.Sequence(componentType=namedtype.NamedTypes(
+                    namedtype.NamedType('a', wrapped if first_wrapped else integer), namedtype.NamedType('b', integer if first_wrapped else wrapped)))
+                w_enc = wire.emit_ident(cls, True, num) + b'\x03\x02\x01\x09'
+                body = (w_enc + int_enc) if first_wrapped else (int_enc + w_enc)
+                rep.count('one-call-forms')
+                try:
+                    v, rest = codec.DEC['ber'].decode(b'\x30' + bytes([len(body)]) + body, asn1Spec=r2)
+                    got = (int(v['a']), int(v['b']), bytes(rest))
+                except Exception as e:  # noqa
+                    got = 'ERR ' + type(e).__name__
+                if got != ((9, 7, b'') if first_wrapped else (7, 9, b'')):
+                    rep.fail('history-dependent:identifier-forms-one-call', 'record %s decodes to %s' % (body.hex(), got),
+                             {'kind': 'one-call-forms', 'class': cls, 'number': num, 'bytes': body.hex()})
 
 
 def interleave(rep, cases, rng):
